@@ -21,7 +21,7 @@
 //                  branches of the node above.   T ::= a|b|c|d          a target (replay source)
 //                                                    | i(T,T)           if_then_else(cond, T, T)
 //                                                    | m(T,T,T)         if_cmp(cmp, T, T, T)
-//                                                    | p(T)             T passed (as REF) through a nested_ graph
+//                                                    | p(T)             T (not a target) passed as REF through a nested_ graph
 //                  at most 6 selection nodes, depth <= 4, the root is i or m; the selection nodes are numbered
 //                  in pre-order (root = 0), each has its own replayed selector; targets a..<highest letter used>
 //   c [sel=<a|b|c>] [s<k>=<0|1|2>] [a=<d>] [b=<d>] [c=<d>] [d=<d>]   one engine cycle (MIN_ST + i); answered when the run happens
@@ -279,7 +279,7 @@ namespace
                 ++pos;
             }
             const int kid = parse_tree(txt, pos, t, depth + 1);
-            if (kid < 0) { return -1; }
+            if (kid < 0 || (ch == 'p' && t.nodes[kid].kind == 'l')) { return -1; }
             t.nodes[self].kids.push_back(kid);
         }
         if (pos >= txt.size() || txt[pos] != ')') { return -1; }
